@@ -127,7 +127,7 @@ pub fn exercise(bytes: &[u8], r: &mut Report, rp: &dyn Fn() -> Json, label: &str
     }
 }
 
-fn directed_inputs() -> Vec<(String, Vec<u8>)> {
+pub fn directed_inputs() -> Vec<(String, Vec<u8>)> {
     let d = db();
     let h = gram::header(0x0001_0600, 0, 100);
     let mut out: Vec<(String, Vec<u8>)> = vec![];
